@@ -158,6 +158,9 @@ func (m *Machine) mapFind(mp *Map, k value) *mapEntry {
 }
 
 func (m *Machine) mapLookup(mp *Map, k value) (value, bool) {
+	if m.raceActive {
+		m.raceMap(mp, false)
+	}
 	e := m.mapFind(mp, k)
 	if e == nil {
 		return nil, false
@@ -168,6 +171,9 @@ func (m *Machine) mapLookup(mp *Map, k value) (value, bool) {
 func (m *Machine) mapInsert(mp *Map, k, v value) {
 	if mp == nil {
 		m.rtPanic("assignment to entry in nil map")
+	}
+	if m.raceActive {
+		m.raceMap(mp, true)
 	}
 	if e := m.mapFind(mp, k); e != nil {
 		old := e.v
@@ -217,6 +223,9 @@ func (m *Machine) mapDelete(mp *Map, k value) {
 	if mp == nil {
 		return
 	}
+	if m.raceActive {
+		m.raceMap(mp, true)
+	}
 	e := m.mapFind(mp, k)
 	if e == nil {
 		return
@@ -242,6 +251,9 @@ func (m *Machine) mapDelete(mp *Map, k value) {
 func (m *Machine) mapClear(mp *Map) {
 	if mp == nil {
 		return
+	}
+	if m.raceActive {
+		m.raceMap(mp, true)
 	}
 	for _, e := range mp.entries {
 		if !e.deleted {
@@ -287,6 +299,9 @@ func (m *Machine) mapRange(mp *Map) iter {
 	it := &mapIter{mp: mp}
 	if mp == nil {
 		return it
+	}
+	if m.raceActive {
+		m.raceMap(mp, false)
 	}
 	for _, e := range mp.entries {
 		if !e.deleted {
